@@ -586,7 +586,16 @@ func genMetric(r *rand.Rand, mode string) metricIn {
 			}
 			empties := []grpIn{noGrp(), {Mode: "by", Labels: IntsList{}}, {Mode: "by", Labels: IntsList{B("nope")}}, {Mode: "without", Labels: all}, noGrp()}
 			ga, gb := empties[r.Intn(len(empties))], empties[r.Intn(len(empties))]
-			in.Expr = mexprIn{T: "binop", Op: pick(r, []string{"or", "and", "unless", "div", "add", "eq", "sub"}), A: mk(1, ga, pick(r, []string{"sum", "count", "max"})), B: mk(2, gb, pick(r, []string{"sum", "min"})),
+			sideA, sideB := mk(1, ga, pick(r, []string{"sum", "count", "max"})), mk(2, gb, pick(r, []string{"sum", "min"}))
+			// ... and vector(x) is that series too
+			vec := &mexprIn{T: "vector", V: [][]int{{2, 1}, {1, 2}, {3, 1}}[r.Intn(3)], Sel: []matcherIn{}, Stages: []stageIn{}, Param: Ints{0, 1}, Unwrap: unwrapIn{Label: Ints{}}, Grp: noGrp()}
+			switch r.Intn(4) {
+			case 0:
+				sideA, sideB = vec, mk(1, gb, pick(r, []string{"sum", "min"})) // (range expressions are numbered from 1 without gaps)
+			case 1:
+				sideB = vec
+			}
+			in.Expr = mexprIn{T: "binop", Op: pick(r, []string{"or", "and", "unless", "div", "add", "eq", "sub"}), A: sideA, B: sideB,
 				Sel: []matcherIn{}, Stages: []stageIn{}, Param: Ints{0, 1}, V: Ints{0, 1}, Unwrap: unwrapIn{Label: Ints{}}, Grp: noGrp()}
 			in.Evals = []evalIn{{Start: mBase + 50, End: mBase + 50, Step: 0}, {Start: mBase + 40, End: mBase + 60, Step: 10}}
 			in.Reps = 2
@@ -887,6 +896,18 @@ func genBinOpCase(r *rand.Rand) ([]MemRec, mexprIn, []evalIn) {
 	default: // nested arithmetic: (left op scalar) op right
 		inner := bin(pick(r, []string{"add", "sub", "mul"}), left, litExpr(scalars[r.Intn(len(scalars))]), false)
 		e = bin(pick(r, []string{"add", "sub", "mul", "div", "and", "or", "unless"}), inner, right, false)
+	}
+	if r.Intn(10) == 0 {
+		// vector(x) against an aggregation that keeps no label: both are THE series without labels
+		left.Grp = []grpIn{noGrp(), {Mode: "by", Labels: IntsList{}}, {Mode: "by", Labels: IntsList{B("nolabel")}}}[r.Intn(3)]
+		vec := &mexprIn{T: "vector", V: [][]int{{2, 1}, {1, 2}, {1, 1}, {5, 2}, {0, 1}}[r.Intn(5)], Sel: []matcherIn{}, Stages: []stageIn{}, Param: Ints{0, 1}, Unwrap: unwrapIn{Label: Ints{}}, Grp: noGrp()}
+		op := pick(r, []string{"add", "sub", "mul", "div", "and", "or", "unless", "gt", "eq"})
+		if r.Intn(2) == 0 {
+			e = bin(op, left, vec, false)
+		} else {
+			left.E.ID = 1
+			e = bin(op, vec, left, false)
+		}
 	}
 	if r.Intn(2) == 0 {
 		// vectors that change from step to step: records on even seconds, window edges on odd seconds (away from C09's subject)
